@@ -4,7 +4,9 @@
    Names are sequences of one-character strings.  Three parts, selected by Mode:
 
    "ddl"    naming conventions + IdentifierPreparer._truncate_and_render_maxlen_name.  A case is (template, lengths of the
-            table / column / referred-table / constraint names, max_identifier_length, explicit?).  Expand(case) is the name the
+            table / column / referred-table / constraint names, the dialect's three limits max_identifier_length /
+            max_index_name_length / max_constraint_name_length, explicit?).  Index names are bounded by the index limit, constraint
+            names by the constraint limit, each falling back to the identifier limit (IndexLimit, ConstraintLimit).  Expand(case) is the name the
             convention produces; Render gives  ok(name) | trunc(prefix)  [the implementation appends "_" + 4 hex digits of a
             hash: an uninterpreted 5-character suffix here]  | error (an explicitly given name that is too long is refused).
             Invariants: DdlBounded (rendered length <= max), DdlFaithful (not truncated unless too long; the kept prefix is a
@@ -18,7 +20,8 @@
    "trace"  (code -> spec) names recorded from real compilations of larger statements: Bounded / Distinct on them.     *)
 EXTENDS Integers, Sequences, FiniteSets, TLC, Json, IOUtils
 CONSTANTS Mode,
-          MaxIdLens,     \* ddl: max_identifier_length values
+          MaxIdLens,     \* ddl: dialect length limits, one integer per configuration:  max_identifier_length * 1000000
+                         \*      + max_index_name_length * 1000 + max_constraint_name_length   (0 = not set: falls back)
           NameLens,      \* ddl: lengths of table / column names
           LabelLens,     \* stmt: label_length values
           MaxItems       \* stmt: items per statement
@@ -53,7 +56,7 @@ Expand(c) ==
     [] c.tmpl = "fk" -> <<"f", "k">> \o U \o TName(c) \o U \o CName(c, 1) \o U \o RName(c)
     [] c.tmpl = "pk" -> <<"p", "k">> \o U \o TName(c)
     [] c.tmpl = "ixlabel" -> <<"i", "x">> \o U \o TName(c) \o U \o CName(c, 1)
-    [] c.tmpl = "explicit" -> Rep("e", c.lt)
+    [] c.tmpl \in {"explicit", "explicituq"} -> Rep("e", c.lt)
 HashLen == 5              \* "_" + 4 hex digits
 \* Python's name[0:k]: a negative k counts from the end
 PyPrefix(name, k) == IF k >= 0 THEN SubSeq(name, 1, Min2(k, Len(name))) ELSE SubSeq(name, 1, Max2(Len(name) + k, 0))
@@ -63,9 +66,20 @@ Render(name, generated, max) ==
   ELSE IF generated THEN [kind |-> "trunc", text |-> PyPrefix(name, max - 8)]
   ELSE [kind |-> "error", text |-> <<>>]
 RenderedLen(r) == Len(r.text) + (IF r.kind = "trunc" THEN HashLen ELSE 0)
+\* the three limits of a dialect: identifiers in general, index names, constraint names
+IdMax(c) == c.max \div 1000000
+IxMax(c) == (c.max \div 1000) % 1000
+CkMax(c) == c.max % 1000
+\* DECLARATIVE: an index name is bounded by the index limit, a constraint name by the constraint limit, each falling back to the
+\* identifier limit when it is not set - and by nothing else
+IndexLimit(c) == IF IxMax(c) = 0 THEN IdMax(c) ELSE IxMax(c)
+ConstraintLimit(c) == IF CkMax(c) = 0 THEN IdMax(c) ELSE CkMax(c)
+IndexTemplates == {"ix", "ixlabel", "explicit"}                 \* "explicit" is an Index with a given name, "explicituq" a UniqueConstraint
+Explicit(c) == c.tmpl \in {"explicit", "explicituq"}
+LimitOf(c) == IF c.tmpl \in IndexTemplates THEN IndexLimit(c) ELSE ConstraintLimit(c)
 DdlCases == [tmpl : Templates \ {"ck", "fk"}, lt : NameLens, lc : NameLens, lr : {1}, max : MaxIdLens]
             \cup [tmpl : {"ck", "fk"}, lt : NameLens, lc : NameLens, lr : {1, 9}, max : MaxIdLens]
-            \cup [tmpl : {"explicit"}, lt : NameLens, lc : {1}, lr : {1}, max : MaxIdLens]
+            \cup [tmpl : {"explicit", "explicituq"}, lt : NameLens, lc : {1}, lr : {1}, max : MaxIdLens]
 
 \* ================================================================ statement names: the machine
 \* a key is a sequence of segments: [lit |-> chars] or [id |-> element id, derived |-> chars]   (name % anon_map)
@@ -154,8 +168,10 @@ VARIABLES case,      \* ddl: the case record; stmt: [L, items]; trace: index
           out
 vars == <<case, reqs, st, named, out>>
 
-DdlOut(c) == LET name == Expand(c) r == Render(name, c.tmpl # "explicit", c.max) IN
-             [tmpl |-> c.tmpl, lt |-> c.lt, lc |-> c.lc, lr |-> c.lr, max |-> c.max, name |-> name, kind |-> r.kind, text |-> r.text]
+\* truncate_and_render_index_name / truncate_and_render_constraint_name pick the limit of their kind
+DdlOut(c) == LET name == Expand(c) r == Render(name, ~Explicit(c), LimitOf(c)) IN
+             [tmpl |-> c.tmpl, lt |-> c.lt, lc |-> c.lc, lr |-> c.lr, max |-> IdMax(c), ixmax |-> IxMax(c), ckmax |-> CkMax(c),
+              eff |-> LimitOf(c), name |-> name, kind |-> r.kind, text |-> r.text]
 Init == \/ /\ Mode = "ddl" /\ case \in DdlCases /\ reqs = <<>> /\ st = EmptySt /\ named = <<>>
            /\ out = DdlOut(case) /\ PrintT(ToJson(out))
         \/ /\ Mode = "stmt" /\ case \in [L : LabelLens, items : Statements]
@@ -174,12 +190,16 @@ Step == /\ Mode = "stmt" /\ reqs # <<>>
 Next == Step \/ (reqs = <<>> /\ UNCHANGED vars)
 
 \* ================================================================ properties
-DdlBounded == Mode = "ddl" => (out.kind # "error" => RenderedLen([kind |-> out.kind, text |-> out.text]) <= case.max)
+DdlBounded == Mode = "ddl" => (out.kind # "error" =>
+   LET len == RenderedLen([kind |-> out.kind, text |-> out.text]) IN
+   /\ (case.tmpl \in IndexTemplates => len <= IndexLimit(case))
+   /\ (case.tmpl \notin IndexTemplates => len <= ConstraintLimit(case))
+   /\ len <= Max2(IdMax(case), LimitOf(case)))
 DdlFaithful == Mode = "ddl" =>
-   /\ (out.kind = "ok" => out.text = out.name /\ Len(out.name) <= case.max)
-   /\ (out.kind = "trunc" => Len(out.name) > case.max /\ case.tmpl # "explicit" /\ IsPrefix(out.text, out.name)
-                             /\ Len(out.text) = case.max - 8)
-   /\ (out.kind = "error" => case.tmpl = "explicit" /\ Len(out.name) > case.max)
+   /\ (out.kind = "ok" => out.text = out.name /\ Len(out.name) <= LimitOf(case))
+   /\ (out.kind = "trunc" => Len(out.name) > LimitOf(case) /\ ~Explicit(case) /\ IsPrefix(out.text, out.name)
+                             /\ Len(out.text) = LimitOf(case) - 8)
+   /\ (out.kind = "error" => Explicit(case) /\ Len(out.name) > LimitOf(case))
 LOf == IF Mode = "stmt" THEN case.L ELSE IF Mode = "trace" THEN Traces[case].L ELSE 0
 Bounded == Mode \in {"stmt", "trace"} => \A i \in 1..Len(named) : Len(named[i].name) <= LOf
 \* distinct elements (the same element asked twice counts once) of one class never share a name
